@@ -147,6 +147,8 @@ class Net:
         if mode == "norec":
             par["recarr"] = rng.choice([0, 1])
             par["recwait"] = 1 - par["recarr"] if rng.random() < 0.5 else 0
+        if rng.random() < 0.25:
+            par["tcp"] = 1          # a TCPSink measures like the PacketSink it is (its ACKs go to a device that ignores them)
         return self.add("PacketSink", par)
 
     def tail(self, frm, maxlen):
@@ -449,7 +451,8 @@ def from_gensink(rng, w):
     g = net.add("Gen", {"d0": c["d0"] * k, "gaps": [x * k for x in c["gaps"]], "sizes": list(c["sizes"])[:n] + [1] * 2,
                         "flow": c["flow"], "fin": c["fin"] * k if c["fin"] >= 0 else -1, "floats": rng.choice([0, 1])})
     wire = net.add("Wire", {"dl": [d * k for d in w["dl"]] or [0], "loss": None, "us": [[1, 2]]})
-    s = net.add("PacketSink", {"recarr": c["recarr"], "abs": c["abs"], "recwait": c["recwait"], "byflow": c["byflow"]})
+    s = net.add("PacketSink", {"recarr": c["recarr"], "abs": c["abs"], "recwait": c["recwait"], "byflow": c["byflow"],
+                               "tcp": rng.choice([0, 0, 1])})
     net.link(g, wire); net.link(wire, s)
     sc = net.finish("tlc/gensink")
     sc["order"] = rng.choice([[1, 2, 3], [3, 2, 1], [2, 1, 3]])
